@@ -214,6 +214,73 @@ def toastrelGen (seed idx size : Nat) : Case :=
 
 def toastrel : Family := { name := "toastrel", gen := toastrelGen, eval := toastrelEval, fixed := fixedRels.length }
 
+/-! ### toastrel2: ONE reader, TWO TOAST relations whose value ids collide
+
+chunk_id is unique only within one TOAST relation: two relations of a database routinely hold the same ids.  The
+pointer names its relation (va_toastrelid), and a read must use that relation's chunks only.  Modes: 1 = both
+relations loaded up front (LoadTOASTTable twice), 2 = both found lazily in the data directory.  The pointers are read
+in the order A…, B…, A… so that a value of A is read before and after B's chunks entered the reader. -/
+def rel2Model (mode relA relB : Nat) (fileA fileB ptrs : Bytes) : String :=
+  let ps := split18 (ptrs.length + 1) ptrs
+  let viaReader (r0 : Model.Toast.Reader) (readFile : Nat → Option Bytes) : String :=
+    let step (acc : Except Fault (List String × Model.Toast.Reader)) (pb : Bytes) :=
+      match acc with
+      | .error e => .error e
+      | .ok (outs, r) =>
+        match Model.Toast.readValue noZlib readFile r pb with
+        | .error e => .error e
+        | .ok (v, r') => .ok (outs ++ [showOB v], r')
+    match ps.foldl step (.ok ([], r0)) with
+    | .error e => faultStr e
+    | .ok (outs, _) => joinWith ";" outs
+  match mode with
+  | 1 =>
+    match Model.Toast.readTOASTTable fileA, Model.Toast.readTOASTTable fileB with
+    | .ok ca, .ok cb => viaReader ⟨[(relA, ca), (relB, cb)], false⟩ (fun _ => none)
+    | .error e, _ => faultStr e
+    | _, .error e => faultStr e
+  | _ => viaReader ⟨[], true⟩ (fun r => if r == relA then some fileA else if r == relB then some fileB else none)
+
+def toastrel2Eval (args : List String) : String :=
+  match args with
+  | [mode, relA, fileA, relB, fileB, ptrs] =>
+    rel2Model mode.toNat! relA.toNat! relB.toNat! (unhex fileA) (unhex fileB) (unhex ptrs)
+  | _ => "bad-args"
+
+def rel2Case (a b : Gen.Toast.Rel) (mode : Nat) : Case :=
+  let relA := 16385
+  let relB := 16390
+  -- B's values take A's ids (as far as there are any): same chunk_id in both relations, different content
+  let idsA := a.vals.map (·.id)
+  let renum : List (Nat × Nat) := (b.vals.map (·.id)).zip (idsA ++ (b.vals.map (·.id)).drop idsA.length)
+  let newId (i : Nat) : Nat := ((renum.find? (·.1 == i)).map (·.2)).getD i
+  let bvals := b.vals.map fun v => { v with id := newId v.id, relid := relB }
+  let blay : Layout := b.lay.map fun pg => pg.map fun e => { e with row := { e.row with id := newId e.row.id } }
+  let avals := a.vals.map fun v => { v with relid := relA }
+  let fileA := encToastRel a.lay
+  let fileB := encToastRel blay
+  let pa := avals.flatMap fun v => encExtPtr (ptrOf v)
+  let pb := bvals.flatMap fun v => encExtPtr (ptrOf v)
+  let ptrs := pa ++ pb ++ pa
+  let storedIn (lay : Layout) (v : ToastValue) : Bool := !(lay.liveRows.filter fun r => r.id == v.id).isEmpty
+  let sv (lay : Layout) (v : ToastValue) : String := if storedIn lay v then "s" ++ hexOf v.content.original else "~"
+  let spec := joinWith ";" (avals.map (sv a.lay) ++ bvals.map (sv blay) ++ avals.map (sv a.lay))
+  let shared := (bvals.filter fun v => idsA.contains v.id).length
+  let tags := [s!"mode={mode}", s!"shared_ids={if shared == 0 then "0" else if shared ≤ 3 then "1..3" else ">3"}",
+               s!"valsA={if avals.length ≤ 1 then "1" else "2+"}", s!"valsB={if bvals.length ≤ 1 then "1" else "2+"}", "nt"]
+  { tags, model := rel2Model mode relA relB fileA fileB ptrs, spec,
+    args := [toString mode, toString relA, hexRle fileA, toString relB, hexRle fileB, hexRle ptrs] }
+
+def toastrel2Gen (seed idx size : Nat) : Case :=
+  let nf := fixedRels.length
+  let (a, b) : Gen.Toast.Rel × Gen.Toast.Rel :=
+    if idx < nf then (fixedRels.getD idx default, fixedRels.getD ((idx + 7) % nf) default)
+    else ((Gen.Toast.genRel size).run' (Prng.ofSeed seed idx), (Gen.Toast.genRel size).run' (Prng.ofSeed (seed + 1000003) idx))
+  rel2Case a b (1 + idx % 2)
+
+def toastrel2 : Family :=
+  { name := "toastrel2", gen := toastrel2Gen, eval := toastrel2Eval, fixed := fixedRels.length }
+
 /-! ### pglz / lz4: streams handed to ReassembleTOAST as chunks -/
 
 /-- chunks of value `id`: pieces of `stored` cut by `cuts`, numbered from 0, placed in `order`, after a foreign chunk -/
